@@ -59,12 +59,15 @@ CLAIMED = {
  "C18": ("E2 product + E3 deviation-bounded exploration",
          "37 offenders (lexical, syntax, undefined name, operator type / overflow on expressions and on op-assignment to variable / element / property / key, call errors, redeclaration, jumps, stack-trace lines) x every sequence of <= 3 (thorough 4) layout pieces from 10 (newline, space, tab, CR LF, multi-byte comment, statements, multi-line string / literal, multi-byte string on the same line) x 3 in-line indentations; 5 expression offenders x 6 wrappers; newline / end-of-file offenders under same-line and above-line insertions; the whole layout corpus (~440 programs) x every single layout edit with every token start (hook tokens) and every position stored in the syntax tree (hook ast); oracle = the position where the generator put the token, counted in characters, and the reference lexer's / parser's positions",
          "exhaustive enumeration of offender x layout prefix, and single-edit deviations of a corpus, on the real lexer / parser / interpreter against character counting"),
+ "C19": ("E2 product through the plain CLI with an owned hash seed + E2 product of values",
+         "13 (thorough 25) programs that use every hash-based container of the interpreter (many variables per scope, object collect over >= 4 remaining keys, several simultaneous binding errors, duplicate parameter names; succeeding and failing) x the full product of 3 working directories x 4 (8) environments / locales x 5 path spellings x 3 stdin kinds x 2 output sinks, and x a sweep of controlled hash seeds (LD_PRELOAD getrandom shim) which a probe built with the same toolchain shows to produce every iteration order of a 3- (4-) key hash set at every creation offset < 32; all runs of a program byte-identical (stderr modulo the echoed path); every value skeleton of depth <= 3 (600k values) as a literal and depth <= 2 (3) along 5 construction histories, wide lists / objects of 0..8 entries in 6 (24) insertion orders, shared vs separate children; print(v) equals the rendering rule written from the statement and the reference renderer, print returns null",
+         "exhaustive enumeration of environment configurations and hash-iteration orders on the real CLI, and of value skeletons x construction histories, against byte-identity and a rendering rule"),
  "C20": ("E1 breadth-first history exploration + E2 product",
          "all histories of <= 4 (quick) / <= 6 (thorough, wall-capped; 5 completes) operations from 41 operations on x, y and `_` (declare through :=, list pattern, object pattern, fn, for target, parameter; assign; op-assign; read; open / close block, if, loop, function; `_` as target in every entry point; print(_); duplicate names in patterns and parameter lists; collect targets), dead states not expanded; plus 9 non-bindable expression kinds x 9 binding positions; oracle = reference scoping: success / failure, position of the offending name, earlier declaration's position cited in the message",
          "explicit-state breadth-first exploration of operation histories on the real interpreter against a reference model"),
 }
 
-NOT_YET = "check under construction (its exhaustive exploration is not built yet); will be claimed once it exists"
+NOT_YET = "not claimed"
 
 def main():
     props = [json.loads(l) for l in open('/verif/properties.jsonl')]
